@@ -1054,8 +1054,9 @@ impl<'g, 's> LRTable<'g, 's> {
                     })
                     .map(|(term_index, conflict)| {
                         let kind = match &conflict[..] {
-                            [Action::Shift(_), Action::Reduce(prod, _)]
-                            | [Action::Reduce(prod, _), Action::Shift(_)] => {
+                            // ACCEPT is treated the same as SHIFT
+                            [Action::Shift(_) | Action::Accept, Action::Reduce(prod, _)]
+                            | [Action::Reduce(prod, _), Action::Shift(_) | Action::Accept] => {
                                 ConflictKind::ShiftReduce(*prod)
                             }
                             [Action::Reduce(prod1, _), Action::Reduce(prod2, _)] => {
